@@ -27,10 +27,11 @@ BOUNDS = {
     "quick": "strings: every tree with <= 4 operands over + - * /, rendered minimally, fully parenthesised, with odd whitespace and with redundant parentheses, "
              "5 operands over {+,-,*} and over {-,/}; operator API: every tree with <= 3 operands over + - * / max min, repeated operands, "
              "consumption/production wrappers, Quantity/float constants, 4 operands over {+,-,*} and over {-,/,max}",
-    "thorough": "strings <= 6 operands; API <= 4 operands; seeded samples (600 each) of 7-operand strings and 5-/6-operand API trees (the only sampled element)",
+    "thorough": "every string with <= 5 operands (15 763 programs) and every API tree with <= 4 operands (1 652); seeded samples (600 each) of 6- and 7-operand strings and "
+                "5-/6-operand API trees (the only sampled element); instances that run out of budget are reported as such",
 }
 OUTSIDE = "larger expressions; 3-phase engines; IEEE rounding; several timestamps (C06)"
-BUDGET = {"quick": 600, "thorough": 1500}
+BUDGET = {"quick": 600, "thorough": 2000}
 
 _cache = {}
 
@@ -163,5 +164,7 @@ def instances(tier):
         out += (_chunks("str", 4, 16) + _chunks("api", 3, 16) + _chunks("api-ops:+,-,*", 4, 4) + _chunks("api-ops:-,/,max", 4, 4)
                 + _chunks("str-ops:+,-,*", 5, 8) + _chunks("str-ops:-,/", 5, 4))
     else:
-        out += _chunks("str", 6, 64) + _chunks("api", 4, 32) + _chunks("str-sample", 7, 8, seed) + _chunks("api-sample", 5, 16, seed) + _chunks("api-sample", 6, 8, seed)
+        # every string program with <= 5 operands and every API tree with <= 4 operands (exhaustive), then seeded samples of larger ones
+        out += (_chunks("str", 5, 64) + _chunks("api", 4, 32) + _chunks("str-sample", 6, 8, seed) + _chunks("str-sample", 7, 8, seed)
+                + _chunks("api-sample", 5, 16, seed) + _chunks("api-sample", 6, 8, seed))
     return out
